@@ -404,6 +404,62 @@ theorem strIncr_refines {db : DB} (hw : db.WF) {now : Int} {k : Bytes}
       simp [update, strIncr, hr, hv0, strUpdateTx_eq, he, Res.err, Spec.strIncr, hg, Spec.er,
         purge_abs hw.names]
 
+/-- whether `sqlUpdate1` fails depends only on what holds the name -/
+theorem strUpdate1_ok_of_absent {db : DB} {k : Bytes} (now : Int) (h : db.findKey k = none) :
+    ∃ x, strUpdate1 db k now = .ok x := by
+  unfold strUpdate1; rw [keyUpsert_new h]; exact ⟨_, rfl⟩
+
+theorem strUpdate1_ok_of_str {db : DB} {k : Bytes} (now : Int) {r : KeyRow} (h : db.findKey k = some r)
+    (ht : r.ty = TString) : ∃ x, strUpdate1 db k now = .ok x := by
+  unfold strUpdate1; rw [keyUpsert_old h ht]; exact ⟨_, rfl⟩
+
+theorem strUpdate1_err_of_other {db : DB} {k : Bytes} (now : Int) {r : KeyRow} (h : db.findKey k = some r)
+    (ht : r.ty ≠ TString) : strUpdate1 db k now = .error .keyType := by
+  unfold strUpdate1; exact keyUpsert_other h ht
+
+/-- Float increment (`Tx.IncrFloat`) against the specification: wherever the numeric domain of the
+model decides the step (`valueFloat`, `formatFloatDec`), the stored text is read as a number, the
+canonical text of the exact sum is stored, the expiry is kept; a text that is not a number is
+refused without effect; outside the domain both sides say "not decided" and nothing changes. -/
+theorem strIncrFloat_refines {db : DB} (hw : db.WF) {now : Int} {k : Bytes}
+    (hns : staleKey db now k = false) (d : Dyadic) :
+    Refines now (update (fun x => strIncrFloat x k d now) db) (Spec.strIncrFloat (abs now db) k d) := by
+  unfold Refines
+  have hv0 : valueFloat [] = .val .zero := rfl
+  have hz : Dyadic.zero + d = d := rfl
+  rcases holder hw now k with ⟨h, hg, hr⟩ | ⟨_, h, hl, _, _⟩ | ⟨r, b, h, _, ht, hg, hr⟩ |
+    ⟨r, w, h, _, ht, hg, hv, hr⟩
+  · cases hf : formatFloatDec d with
+    | none =>
+      obtain ⟨x, hx⟩ := strUpdate1_ok_of_absent now h
+      simp [update, strIncrFloat, hr, hv0, hz, hf, hx, Res.err, Spec.strIncrFloat, hg, Spec.skip,
+        purge_abs hw.names]
+    | some txt =>
+      obtain ⟨db2, he, _, ha⟩ := strWrite_absent (v := txt) hw (good_upd k now) h now
+      simp [update, strIncrFloat, hr, hv0, hz, hf, strUpdateTx_eq, he, Res.ok, Spec.strIncrFloat, hg,
+        Spec.ok, ha, setNew]
+  · exact (Holder.not_stale hns h hl).elim
+  · cases hvf : valueFloat b with
+    | invalid =>
+      simp [update, strIncrFloat, hr, hvf, Res.err, Spec.strIncrFloat, hg, Spec.er, purge_abs hw.names]
+    | unknown =>
+      simp [update, strIncrFloat, hr, hvf, Res.err, Spec.strIncrFloat, hg, Spec.skip, purge_abs hw.names]
+    | val x =>
+      cases hf : formatFloatDec (x + d) with
+      | none =>
+        obtain ⟨y, hy⟩ := strUpdate1_ok_of_str now h ht
+        simp [update, strIncrFloat, hr, hvf, hf, hy, Res.err, Spec.strIncrFloat, hg, Spec.skip,
+          purge_abs hw.names]
+      | some txt =>
+        obtain ⟨db2, he, _, ha⟩ := strWrite_present (v := txt) hw (good_upd k now) h ht now
+        simp [update, strIncrFloat, hr, hvf, hf, strUpdateTx_eq, he, Res.ok, Spec.strIncrFloat, hg,
+          Spec.ok, ha, updOld]
+  · have he := fun v => strWrite_other (v := v) (onNew := setNew k none now) (onOld := updOld now) h ht
+    have hu := strUpdate1_err_of_other now h ht
+    cases hf : formatFloatDec d <;> cases w <;> first | exact absurd rfl (hv _) |
+      simp [update, strIncrFloat, hr, hv0, hz, hf, hu, strUpdateTx_eq, he, Res.err, Spec.strIncrFloat, hg,
+        Spec.er, purge_abs hw.names]
+
 theorem strSetWith_refines {db : DB} (hw : db.WF) {now : Int} {k : Bytes}
     (hns : staleKey db now k = false) (v : Bytes) (o : SetOpts) :
     Refines now (update (fun x => strSetWith x k v o now) db)
@@ -779,6 +835,22 @@ theorem strIncr_wf {db : DB} (hw : db.WF) (k : Bytes) (d now : Int) : (strIncr d
     rcases h : strUpdateTx db k (itoa (wrap64 (n + d))) now with ⟨o, d'⟩
     rw [h] at this
     cases o <;> exact this
+
+theorem strIncrFloat_wf {db : DB} (hw : db.WF) (k : Bytes) (d : Dyadic) (now : Int) :
+    (strIncrFloat db k d now).db.WF := by
+  unfold strIncrFloat
+  simp only
+  split
+  · exact hw
+  · exact hw
+  · split
+    · split <;> exact hw
+    · rename_i txt _
+      have := strWrite_wf (v := txt) hw (good_upd k now)
+      rw [← strUpdateTx_eq] at this
+      rcases h : strUpdateTx db k txt now with ⟨o, d'⟩
+      rw [h] at this
+      cases o <;> exact this
 
 theorem strSetWith_wf {db : DB} (hw : db.WF) (k v : Bytes) (o : SetOpts) (now : Int) :
     (strSetWith db k v o now).db.WF := by
